@@ -13,7 +13,7 @@
                                   SingleUnflatten, PrimitiveTypeDataArray / FixedSizeFlatObjectArray / ByteBufferDataArray /
                                   MessageDataArray / VariableSizeFlatObjectArray<String> ::TemplatedUnflatten,
                                   Message::TemplatedUnflatten, MessageField::TemplatedUnflatten, GetOrCreateMessageField
-     util/String.h                String::Unflatten = SetCstr(ReadCString())
+     util/String.h                String::Unflatten: s = ReadCString(); s ? SetCstr(s) : the reader's error status
 
    Instrumentation (DESIGN.md section 3, "instrumented models"): every function threads a log holding
      l_tr   every raw access to the received bytes as (offset, length) relative to the outermost buffer, logged where the
@@ -25,14 +25,14 @@
             upper bound); the constants come from the translator (the c_SIZEOF_ names), the structure (what is multiplied by a
             peer-declared count) is the code's;
      l_dp   the deepest Message nesting level entered (the C++ recursion depth is 3 frames per level);
-     l_ub   loads of a byte other than 0/1 into a C++ bool (undefined behaviour; finding F15).
+     l_ub   loads of a byte other than 0/1 into a C++ bool (undefined behaviour; finding F43).
 
    [fixes] selects, per finding, the pinned code or the repaired code (the repair proposed with each finding):
      fx1   VariableSizeFlatObjectArray::TemplatedUnflatten bounds the element count by avail/4 before EnsureSize      (F1)
      fx2   MessageField::TemplatedUnflatten rejects itemSize > what remains before building a child reader on it      (F2)
-     fx14  Message::Unflatten does not pre-size the field table from the declared entry count                          (F14)
-     fx15  EndianConverter::Import(bool) tests the byte against zero instead of copying it into a bool                 (F15)
-     fx16  MessageField::Unflatten refuses B_POINTER_TYPE / B_TAG_TYPE instead of reaching the arrays' MCRASH           (F16)
+     fx14  Message::Unflatten does not pre-size the field table from the declared entry count                          (F42)
+     fx15  EndianConverter::Import(bool) tests the byte against zero instead of copying it into a bool                 (F43)
+     fx16  MessageField::Unflatten refuses B_POINTER_TYPE / B_TAG_TYPE instead of reaching the arrays' MCRASH           (F44)
    The theorems are about [fixed]; the [pinned] behaviour is kept for the ..._refuted lemmas and as documentation. *)
 From Coq Require Import List NArith Bool Strings.Byte.
 From Muscle Require Import Gen.Consts Msg.MsgDefs.
@@ -176,7 +176,7 @@ Section Buf.
   Definition read_cstring : M bytes :=
     fun r l =>
       let nba := avail r in
-      if nba =? 0 then (Ok [], flag r, l)
+      if nba =? 0 then (Err, flag r, l)                        (* ReadCString() = NULL, status B_DATA_NOT_FOUND *)
       else if r_max r =? NOLIM then
         (* strlen() without a bound: runs to the first NUL wherever it is *)
         match nul_index (dropN (pos r) bs) 0 with
@@ -186,11 +186,11 @@ Section Buf.
       else
         match nul_index (slice (pos r) nba) 0 with
         | Some k => (Ok (slice (pos r) k), adv (k + 1) r, charge (str_cost k) (touch (pos r) (k + 1) l))
-        | None => (Ok [], flag r, touch (pos r) nba l)
+        | None => (Err, flag r, touch (pos r) nba l)            (* unterminated: ReadCString() = NULL, status B_BAD_DATA *)
         end.
 
   (* one turn of ReadFlatsWithLengthPrefixes<String>: length word, SizeCheck, child reader of exactly that size,
-     String::Unflatten (never an error), advance by the stated size *)
+     String::Unflatten (an error when ReadCString() found no terminated string), advance by the stated size either way *)
   Definition rd_lp_string : M bytes :=
     fun r l =>
       if W <=? avail r then
@@ -199,7 +199,10 @@ Section Buf.
         let l1 := touch (pos r) W l in
         if n <=? avail r1 then
           let '(x, _, l2) := read_cstring (mkR (pos r1) 0 n false) l1 in
-          (x, adv n r1, l2)
+          match x with
+          | Ok s => (Ok s, adv n r1, l2)
+          | _ => (Err, flag (adv n r1), l2)
+          end
         else (Err, flag r1, l1)
       else (Err, flag r, l).
 
